@@ -62,8 +62,9 @@ func c14Seeds(s *refper.Schema, thorough bool) (seeds [][]byte, names []string) 
 }
 
 type c14state struct {
-	cur   atomic.Value // string: description of the input being decoded
-	start atomic.Int64
+	cur      atomic.Value // string: description of the input being decoded
+	start    atomic.Int64
+	cpuStart atomic.Int64
 }
 
 func runC14(ctx *Ctx) {
@@ -83,7 +84,7 @@ func runC14(ctx *Ctx) {
 		pairAlphabet, maxGap = []byte{0x00, 0x01, 0x7f, 0x80, 0x81, 0xbf, 0xc0, 0xc1, 0xc4, 0xc5, 0xfe, 0xff}, 6
 	}
 	r.Rule = fmt.Sprintf("(a) every octet string of length 0..%d; (b) for each of %d seeds (reference encodings of every message type%s): every prefix, every single-octet substitution (len x 255), every single-bit flip, every 2-octet length form {8000,bfff,c4ff,ffff} at every position, every pair of octets up to %d positions apart replaced by every pair from a %d-value adversarial alphabet (unknown identifiers x fragmented / overlong / zero length determinants)%s; "+
-		"oracle: ngap.Decoder returns (value|error) - no panic, per-call allocation <= %d MiB (schema-legal maximum is ~15 MiB for a 65535-element IE list), per-call time below a %v horizon; each input is decoded in a shard process with an address-space limit; distinct = distinct inputs (hashed); non-trivial = all",
+		"oracle: ngap.Decoder returns (value|error) - no panic, per-call allocation <= %d MiB (schema-legal maximum is ~15 MiB for a 65535-element IE list), per-call CPU time below a %v horizon; each input is decoded in a shard process with an address-space limit; distinct = distinct inputs (hashed); non-trivial = all",
 		maxLen, len(seeds), map[bool]string{true: " and of every value one CHOICE alternative / IE selection away", false: ""}[ctx.Thorough], maxGap, len(pairAlphabet),
 		map[bool]string{true: ", every pair of bit flips in the first 24 octets", false: ""}[ctx.Thorough], c14AllocBound>>20, c14Horizon)
 	r.Assume("allocation is measured per batch of 128 calls (runtime.MemStats.TotalAlloc) and per call when a batch exceeds the bound", "coverage-guided fuzzing named in the property's quantifier text is a different technique family and is not used")
@@ -110,9 +111,9 @@ func runC14(ctx *Ctx) {
 		for {
 			time.Sleep(500 * time.Millisecond)
 			t0 := st.start.Load()
-			if t0 != 0 && time.Since(time.Unix(0, t0)) > c14Horizon {
+			if hungSince(t0, st.cpuStart.Load(), c14Horizon) && st.start.Load() == t0 {
 				in := st.cur.Load().(string)
-				r.Violate("decode/does-not-terminate", in, fmt.Sprintf("no return after %v", c14Horizon), nil)
+				r.Violate("decode/does-not-terminate", in, fmt.Sprintf("no return after %v of CPU time", c14Horizon), nil)
 				r.NotExhaustive("a shard stopped at a non-terminating input")
 				r.WritePartial(os.Getenv("MC_PARTIAL"))
 				os.Exit(0)
@@ -123,6 +124,7 @@ func runC14(ctx *Ctx) {
 	var ms runtime.MemStats
 	decodeOne := func(in []byte) {
 		st.cur.Store(fmt.Sprintf("%x", in))
+		st.cpuStart.Store(processCPU())
 		st.start.Store(time.Now().UnixNano())
 		var derr error
 		perr := recoverErr(func() { _, derr = ngap.Decoder(in) })
